@@ -47,7 +47,7 @@ theorem fields_step_progress (acc : List Expr) (ts : List Lexem) :
 /-- no column ⇒ rejected -/
 theorem no_column_rejected :
     parseTokens [] = .error (.msg "Error parsing fields, no selector found") := by
-  simp [parseTokens, dropEmptyStrings, parseFields, iterate, fieldsStep]
+  simp [parseTokens, parseFields, iterate, fieldsStep]
 
 /-- non-numeric LIMIT ⇒ rejected -/
 theorem limit_non_numeric_rejected (s : Str) (r : List Lexem) (h : parseU32? s = none) :
